@@ -283,6 +283,12 @@ class Ctx:
             'wall_s': round(time.time() - self.t0, 2),
             'violations': nviol,
         }
+        if obligations == 0:
+            # no theorem registered (yet) for this property: the level-specific keys would be vacuous; fall back to the
+            # exploration-style counts the schema accepts and say so
+            for k in ('obligations', 'discharged'):
+                ev['coverage'].pop(k)
+            ev['coverage']['explanation'] = 'no proof obligation is registered for this property in lean/obligations.json; this run is differential testing only'
         with open(os.path.join(VERIF, 'evidence', f'{self.pid}.json'), 'w') as f:
             json.dump(ev, f, indent=1, default=str)
         for l in lines:
@@ -367,5 +373,21 @@ def main(run_func, pid):
     a = ap.parse_args()
     seed = int(os.environ.get('VERIF_SEED', '0'))
     ctx = Ctx(pid, a.tier, seed)
-    run_func(ctx)
+    try:
+        run_func(ctx)
+    except Exception as e:
+        tb = traceback.extract_tb(e.__traceback__)
+        in_kingdon = [f for f in tb if os.path.join(REPO, 'kingdon') in f.filename]
+        text = ''.join(traceback.format_exception(type(e), e, e.__traceback__))[-3000:]
+        if in_kingdon:
+            # the library raised where the unchanged library does not: an input on which the property fails to hold
+            last_h = [f for f in tb if os.path.join(VERIF, 'harness') in f.filename]
+            ctx.violation('uncaught-exception-in-kingdon',
+                          {'harness_call_site': f'{os.path.basename(last_h[-1].filename)}:{last_h[-1].lineno}' if last_h else None,
+                           'raised_at': f'{os.path.basename(in_kingdon[-1].filename)}:{in_kingdon[-1].lineno} in {in_kingdon[-1].name}'},
+                          'no exception (the unchanged library completes this check)', text, key=f'crash:{type(e).__name__}')
+        else:
+            print(text)
+            print(f'{pid}: harness error (not a verdict)')
+            sys.exit(2)
     sys.exit(ctx.finish())
